@@ -8,7 +8,7 @@
     satisfies [InvS] the refreshing edits re-establish it ([refresh_establishes]). *)
 From Coq Require Import Ascii String List Bool PArith NArith ZArith QArith FMapPositive Permutation Lia.
 From PTBase Require Import Exn PyStr.
-From P Require Import Assoc GeoState GeoEdit GeoEdit2 GeoStep Inv InvNames InvSimple Sets InvCol InvConn InvDel InvRefresh InvRename InvCompound.
+From P Require Import Assoc GeoState GeoEdit GeoEdit2 GeoStep Inv InvNames InvSimple Sets InvCol InvConn InvDel InvRefresh InvRename InvCompound InvSplit InvSplit2.
 Import ListNotations.
 Open Scope list_scope.
 
@@ -19,13 +19,11 @@ Definition split_noop (g : geo) (c n : str) : Prop := split_column g c n = Ok g.
 (** ** well-formed arguments: what every edit needs to keep the object graph consistent *)
 Definition preS (g : geo) (o : op) : Prop :=
   match o with
-  | AddNode _ _ | AddLayer _ _ _ _ | DelLayer _ | AddWell _ | DelWell _ | DelOrphans | IdentifyNbrs | LayerTops
+  | AddNode _ _ | DelCol _ | DelConn _ _ | AddLayer _ _ _ _ | DelLayer _ | AddWell _ | DelWell _ | DelOrphans | IdentifyNbrs | LayerTops
   | DefaultSurface | SetSurface _ _ | SetNumLayers _ | SetupBlockNames | SetupConnNames => True
   | DelNode n => node_unused g n                          (* no column uses the node *)
   | AddCol n ns _ _ => col_args_ok g n ns                 (* at least three distinct node names *)
-  | DelCol _ => fx_nbr (fx g) = false
   | AddConn a b => conn_args_ok g a b                     (* two different columns that share a side *)
-  | DelConn _ _ => fx_nbr (fx g) = false
   | RenCol olds news => ren_cols_ok g (combine olds news) (* new names free; (source as it stands:) renamed columns unconnected *)
   | RenLayer olds news => ren_lays_ok g (combine olds news)
   | SplitCol c n => split_noop g c n
@@ -34,8 +32,8 @@ Definition preS (g : geo) (o : op) : Prop :=
   | Refine _ _ | Triangulate _ | DecomposeCols _ _ _ => False
   | CopyLayers _ | SnapLayers _ _ | SnapNearest _ | Translate _ _ _ | MoveNodes _ _ => True
   | RefineLayers _ _ => S3b g                (* (the proof goes through the whole invariant of the rebuilt layers) *)
-  | CheckFix hmiss _ => fx_nbr (fx g) = false /\ conns_ok g hmiss       (* each added connection joins columns sharing a side *)
-  | Reduce names hmiss _ => fx_nbr (fx g) = false /\
+  | CheckFix hmiss _ => conns_ok g hmiss                (* each added connection joins columns sharing a side *)
+  | Reduce names hmiss _ =>
       forall g1, delete_columns g (map (cn g) (filter (fun c => negb (existsb (fun n => match cget g n with Some x => Pos.eqb x c | None => false end) names)) (clist g))) = Ok g1 -> conns_ok g1 hmiss
   end.
 
@@ -63,8 +61,8 @@ Proof.
   - eapply set_num_layers_invS; eauto.
   - eapply setup_block_name_index_invS; eauto.
   - eapply setup_block_connection_name_index_invS; eauto.
-  - destruct P. eapply check_fix_invS; eauto.
-  - destruct P. eapply reduce_invS; eauto.
+  - eapply check_fix_invS; eauto.
+  - eapply reduce_invS; eauto.
   - destruct P. - destruct P. - destruct P.
   - exact (i_s _ (refine_layers_establishes g names factor g' I P H)).
   - eapply copy_layers_from_invS; eauto.
@@ -76,14 +74,15 @@ Qed.
 
 (** ** what an edit needs to keep ALL clauses (derived data included) without a refresh *)
 Definition pre (g : geo) (o : op) : Prop :=
-  preS g o /\
+  (match o with SplitCol c n => split_noop g c n \/ split_pre g c n | _ => preS g o end) /\
   match o with
-  | AddNode _ _ | DelNode _ | AddWell _ | DelWell _ | RenCol _ _ | RenLayer _ _ | SplitCol _ _ | DelOrphans
+  | AddNode _ _ | DelNode _ | AddWell _ | DelWell _ | RenCol _ _ | RenLayer _ _ | DelOrphans
   | IdentifyNbrs | SetNumLayers _ | SetupBlockNames | SetupConnNames => True
+  | SplitCol _ _ => True                                  (* see [pre]: a real split is covered in the repaired source *)
   | AddCol n _ _ _ => col_derived_ok g n                  (* no layer yet *)
-  | DelCol _ => llist g = []
+  | DelCol _ => fx_nbr (fx g) = false /\ llist g = []
   | AddConn a b => conn_derived_ok g a b                  (* already neighbours (or repaired source); no layer yet *)
-  | DelConn a b => joined_otherwise g (a, b) /\ llist g = []
+  | DelConn a b => fx_nbr (fx g) = false /\ joined_otherwise g (a, b) /\ llist g = []
   | AddLayer _ _ _ _ | DelLayer _ | LayerTops | DefaultSurface => no_dependants g
   | SetSurface _ _ => llist g = []
   | CopyLayers _ | RefineLayers _ _ | MoveNodes _ _ => True
@@ -99,16 +98,17 @@ Proof.
   - inversion H; subst. apply add_node_inv; exact I.
   - eapply delete_node_inv; eauto.
   - eapply add_column_inv; eauto.
-  - eapply delete_column_inv; eauto.
+  - destruct P. eapply delete_column_inv; eauto.
   - eapply add_connection_inv; eauto.
-  - destruct P. eapply delete_connection_inv; eauto.
+  - destruct P as [P' [P'' P''']]. eapply delete_connection_inv; eauto.
   - inversion H; subst. apply add_layer_inv; assumption.
   - eapply delete_layer_inv; eauto.
   - inversion H; subst. apply add_well_inv; exact I.
   - eapply delete_well_inv; eauto.
   - eapply rename_column_inv; eauto.
   - eapply rename_layer_inv; eauto.
-  - unfold split_noop in PS. rewrite PS in H. inversion H; subst; exact I.
+  - destruct PS as [PS|PS]; [unfold split_noop in PS; rewrite PS in H; inversion H; subst; exact I|].
+    eapply split_column_inv; eauto.
   - eapply delete_orphans_inv; eauto.
   - inversion H; subst. apply identify_neighbours_inv; exact I.
   - eapply identify_layer_tops_inv; eauto.
